@@ -119,8 +119,12 @@ class RunWorld:
             ns["__init__"] = make_init()
             for m, sc in enumerate(cd["meths"]):
                 def make_meth(m=m, sc=sc, c=c):
-                    def meth(self):
-                        return W.play(["meth", W.oid_of[id(self)], m], "meth_%d_%d" % (c, m), sc)
+                    if W.is_async:
+                        async def meth(self):
+                            return await W.aplay(["meth", W.oid_of[id(self)], m], "meth_%d_%d" % (c, m), sc)
+                    else:
+                        def meth(self):
+                            return W.play(["meth", W.oid_of[id(self)], m], "meth_%d_%d" % (c, m), sc)
                     meth.__name__ = "m%d" % m
                     return meth
                 ns["m%d" % m] = make_meth()
